@@ -209,14 +209,18 @@ Proof. exact sigmoid_fortran_elementwise. Qed.
 Print Assumptions C02_sigmoid_fortran_elementwise.
 
 (* ------------------------------------------------------------------------------------------------ (vi) named constants *)
-(* `pi` denotes the same float64 on every backend.  Full statement (false while fixed_fortran_pi = false: D1xx-fortran-pi): *)
+(* `pi` denotes the same float64 on every backend: full since fix D108 (Fortran PI = 4.0d0*atan(1.0d0); switch fixed_fortran_pi = true) *)
 Definition C02_pi_full_statement : Prop := forall b, backend_pi b = pi_f64.
+
+Theorem C02_pi_full : forall b, backend_pi b = pi_f64.
+Proof. exact backend_pi_full. Qed.
+Print Assumptions C02_pi_full.
 
 Theorem C02_pi_partial : forall b, fortran_pi_free b true = true -> backend_pi b = pi_f64.
 Proof. exact backend_pi_partial. Qed.
 Print Assumptions C02_pi_partial.
 
-(* before fix_D1xx_fortran_pi the Fortran module constant is float32(pi) = 13176795/4194304 *)
+(* before fix D108 (switch value false) the Fortran module constant was float32(pi) = 13176795/4194304 *)
 Theorem C02_pi_fortran_refuted_before_fix : fixed_fortran_pi = false -> backend_pi BFortran <> pi_f64.
 Proof. exact backend_pi_fortran_before_fix. Qed.
 Print Assumptions C02_pi_fortran_refuted_before_fix.
